@@ -275,6 +275,16 @@ template <typename V> void family()
     T db = dot(big, big);
     CHECK_SCALAR("length_big", length(big), (T)::sqrt((double)db), showv(big))
   }
+  // lerp(f, a, b) on vectors = (1 - f) * a + f * b per component, in the type float * T promotes to, for every element
+  // type (ascending and descending components: an unsigned b - a would wrap)
+  {
+    using R = decltype(float() * T());
+    V la, lb;
+    for (int i = 0; i < N; i++) { set(la, i, (T)(3 + 4 * i)); set(lb, i, (T)(i % 2 ? 1 + i : 21 + i)); }
+    const float f = 0.25f;
+    auto r = lerp(f, la, lb);
+    CHECK_COMP("lerp", r, (T)((R)(1.f - f) * (R)get(la, i) + (R)f * (R)get(lb, i)), showv(la) + " " + showv(lb))
+  }
   extra<V>::run(a, b);
 }
 
